@@ -173,6 +173,12 @@ func (q *vfQ) TapLen() int {
 	return len(q.tap)
 }
 
+func (q *vfQ) Writes() int {
+	q.mu.Lock()
+	defer q.mu.Unlock()
+	return q.writes
+}
+
 func (q *vfQ) Pending() int {
 	q.mu.Lock()
 	defer q.mu.Unlock()
